@@ -292,6 +292,18 @@ Theorem relay_offer_exact_with_changing_tables :
 Proof. exact sys_offer_exact. Qed.
 Print Assumptions relay_offer_exact_with_changing_tables.
 
+(** 12b. "Never ahead of an older pending valset update", whatever the backlog: the statement of 3 / 12 has no
+    bound on the queue because every poller and the shared GetPendingValsetUpdates read the whole queue
+    (translator facts), and the latent reassignment picks per message. *)
+Theorem pollers_read_the_whole_queue :
+  Gen.C14.queue_getters =
+  ["GetPendingValsetUpdates: GetMessagesFromQueue(_, _, 0) sliced-before-filter=false";
+   "GetMessagesForRelaying: GetMessagesFromQueue(_, _, 0) sliced-before-filter=false";
+   "GetMessagesForGasEstimation: GetMessagesFromQueue(_, _, 0) sliced-before-filter=false"]%string /\
+  Gen.C14.get_messages_from_queue_bound = ["n > 0 && len(msgs) > n"]%string.
+Proof. exact queue_getters_are. Qed.
+Print Assumptions pollers_read_the_whole_queue.
+
 (** 13. The ranking arithmetic.  Every LegacyDec operation of scoreValue / the weighted sum asserts
     |raw| <= 2^256 * 10^18 - 1 and panics otherwise, before the job filter runs ([pick_ov]).  With
     non-negative table values inside that range and weights whose absolute values sum to at most the
